@@ -208,6 +208,12 @@ fn case_json(kvs: &[Kv], fr: Front, geom: Geom) -> Value {
 }
 
 pub fn replay(case: &Value) -> Result<String, String> {
+    if case["many_builds"].as_bool() == Some(true) {
+        fn judge(kvs: &[Kv], bytes: &[u8]) -> Result<(), String> {
+            guard(|| check_readback(bytes, kvs, false)).and_then(|x| x)
+        }
+        return super::c15::run_many_builds_judged(false, Some(judge)).map(|c| format!("{} rebuilds read back", c));
+    }
     if let Some(t) = case["delta_target"].as_u64() {
         let kvs = delta_boundary_kvs(t as usize)?;
         return run_case(&kvs, Front::RawInsert, DEFAULT_GEOM, false).map(|h| format!("bytes fnv {:x}", h));
@@ -245,7 +251,7 @@ fn dup_of_ab3(u: &Universe, keys: &[Key]) -> bool {
 
 pub fn plan(tier: Tier) -> Plan {
     let mut p = Plan::new("C01", "model_checking");
-    p.rule = "every subset of each key universe (= every valid insert history) x value patterns x cache geometries x front ends is built with the real builder, finished and read back through every reader; a case is non-trivial when it has >= 2 keys; cases are distinct by construction (key sets of U_abc2 without 'c' are skipped as duplicates of U_ab3); maps calibrated (with the independent decoder) so that the root reaches a node by an address delta of exactly 2^8, 2^16, 2^24 and their neighbours; the same wide node compiled again under every tiny cache geometry; readers also through map_data, clone/From/AsRef conversions, alternating and half-dropped streams and a node-by-node walk through the public node API".into();
+    p.rule = "every subset of each key universe (= every valid insert history) x value patterns x cache geometries x front ends is built with the real builder, finished and read back through every reader; a case is non-trivial when it has >= 2 keys; cases are distinct by construction (key sets of U_abc2 without 'c' are skipped as duplicates of U_ab3); maps calibrated (with the independent decoder) so that the root reaches a node by an address delta of exactly 2^8, 2^16, 2^24 and their neighbours; the same wide node compiled again under every tiny cache geometry; about 65 550 builders on one thread with twelve probe inputs rebuilt 1 .. 65 537 builds after their first build and read back; readers also through map_data, clone/From/AsRef conversions, alternating and half-dropped streams and a node-by-node walk through the public node API".into();
     p.assumptions = vec![
         "harness reference model (BTreeMap order) is the specification of 'lexicographic byte order'".into(),
         "front ends other than raw::Builder can only be run under the default cache geometry".into(),
@@ -577,6 +583,17 @@ pub fn plan(tier: Tier) -> Plan {
     }
     p.extra.insert("universes".into(), json!(["U_ab3 (15 keys, 32768 subsets)", "U_abc2 (13 keys)", "U_raw2 (13 keys, bytes 00 7f ff)"]));
     p.extra.insert("geometries".into(), json!(GEOMS.iter().map(|g| format!("{}x{}", g.0, g.1)).collect::<Vec<_>>()));
+    // many builders on one thread (anything parked per thread between builds must not leak into a later file)
+    p.units.push(unit("many-builds-on-one-thread-(finite-family)", "many builds".into(), move |st, rep| {
+        fn judge(kvs: &[Kv], bytes: &[u8]) -> Result<(), String> {
+            guard(|| check_readback(bytes, kvs, false)).and_then(|x| x)
+        }
+        st.states += 65_550;
+        match super::c15::run_many_builds_judged(false, Some(judge)) {
+            Ok(c) => { st.evals += c; st.count("rebuilds_read_back_after_many_builds", c); }
+            Err(msg) => rep.violation("many builds".into(), msg, json!({"many_builds": true})),
+        }
+    }));
     p.must_be_nonzero = vec!["fanout_cases".into(), "calibrated_delta_cases_exactly_on_target".into()];
     p
 }
